@@ -300,3 +300,21 @@ func init() {
 		Assumptions: []string{"JWS contract; injectivity of marshal / c14n / sha256"},
 	})
 }
+
+func init() {
+	reg(&propCfg{
+		ID:      "C11",
+		Pkgs:    []string{"cbc", "l10n", "cal"},
+		Lenient: []string{"cbc", "l10n", "cal"},
+		Stages:  []stage{{Name: "leaf-conformance", Harness: `^H_C11_`}},
+		Functions: []string{"cbc.Key.Validate", "cbc.Code.Validate", "l10n.Code.Validate", "cal.Date.Validate / IsZero / String", "cal.DateTime.Validate / IsZero / String", "validation.Match / Length rules (real code over the modelled reflection leaves)"},
+		Stubs: []string{"regexp matching: NFA from the pattern string in the package initialiser", "civil.Date.IsValid / civil.Time.IsValid: Gregorian calendar formula / field ranges for symbolic values", "fmt.Sprintf %04d / %02d: Go model",
+			"the published schema files data/schemas/{cbc/key,cbc/code,l10n/code,cal/date,cal/date-time}.json are read at run time as the oracle (pattern, minLength, maxLength, format)"},
+		Bounds: map[string][]string{
+			"quick":    {"keys, codes: every ASCII string of 1..4 bytes (symbolic); one string one byte longer than the published maximum", "dates: every year in -20000..20000, month in -1..14, day in -1..33 (symbolic); date-times additionally hour, minute, second around their ranges"},
+			"thorough": {"strings of 1..6 bytes"},
+		},
+		Outside:     []string{"whether each published schema file is a valid JSON Schema with resolvable references (data, no symbolic dimension)", "struct-level constraints: required members, enumerations, additionalProperties, which are produced by reflection over struct tags", "leaf types other than the five listed; uuid and uri formats"},
+		Assumptions: []string{"format \"date\" means RFC 3339 full-date (four-digit year)"},
+	})
+}
